@@ -64,13 +64,23 @@ def build_case(shard, vi, seed, ctor="Sigma", prep="fresh"):
         b2 = np.concatenate([b[:1] + 3.0, b], axis=0)
         Sy2 = np.concatenate([Sy[:1] * 2.0, Sy], axis=0)
         big, kw, (Mb, bb, Syb) = objs.mk_cond(kind, M2, b2, Sy2, ctor=ctor)
-        idx = list(range(-Rc, 0))
+        idx = list(range(-Rc, 0)) if vi == 0 else list(range(1, Rc + 1))  # negative / positive indices >= 1
         cond = big.slice(jnp.array(idx))
         Me, be, Sye = Mb[idx], bb[idx], Syb[idx]
         Sx2 = np.concatenate([Sx[:1] * 1.5, Sx], axis=0)
         mx2 = np.concatenate([mx[:1] - 2.0, mx], axis=0)
         p_x = objs.mk_pdf("GaussianPDF", Sx2, mx2).slice(jnp.array(list(range(-Rx, 0))))
         return cond, kw, p_x, (Me, be, Sye, mx, Sx)
+    if prep == "updated" and kind == "nncontrol":
+        # used with a control variable, then update_Sigma, then used again with the SAME control array object
+        cond, kw, (Me, be, Sye) = objs.mk_cond(kind, M, b, Sy * 3.0, ctor=ctor)
+        p0 = objs.mk_pdf("GaussianPDF", Sx[:1], mx[:1])
+        cond.affine_marginal_transformation(p0, **kw)
+        cond.affine_joint_transformation(p0, **kw)
+        cond.set_control_variable(kw["u"])
+        cond.update_Sigma(J(Sy[:1]))
+        p_x = objs.mk_pdf("GaussianPDF", Sx, mx)
+        return cond, kw, p_x, (Me, be, np.tile(Sy[:1], (len(Me), 1, 1)), mx, Sx)
     if prep == "updated" and kind != "nncontrol":
         # the conditional was built with another noise covariance and then updated in place
         cond, kw, (Me, be, Sye) = objs.mk_cond(kind, M, b, Sy * 3.0 + (0 if diag else 0.0), ctor=ctor)
@@ -101,7 +111,13 @@ def run(shard, ctx, which):
         if ctor != "Sigma" and vi not in (0, 100):
             continue
         for N in ((2, 3) if tier == "thorough" else (2,)):
-          for prep in (("fresh", "sliced", "updated") if (ctor == "Sigma" and vi in (0, 100) and kind != "nncontrol") else ("fresh",)):
+          if kind == "nncontrol":
+              preps = ("fresh", "updated") if vi in (0, 100) else ("fresh",)
+          elif ctor in ("Sigma", "b_none") and vi in (0, 100):
+              preps = ("fresh", "sliced", "updated")
+          else:
+              preps = ("fresh",)
+          for prep in preps:
             desc = dict(vi=vi, N=N, ctor=ctor, prep=prep)
             if not ctx.case(desc):
                 continue
